@@ -311,7 +311,12 @@ class Pack:
 
 
 def term_text(t, limit=600):
-    s = str(t)
+    try:
+        # z3's Python pretty-printer is very slow on big terms (0.1 s each): use the C printer for those
+        sx = t.sexpr() if hasattr(t, "sexpr") else None
+    except Exception:
+        sx = None
+    s = sx if (sx is not None and len(sx) > 4000) else str(t)
     s = re.sub(r"\s+", " ", s)
     return s if len(s) <= limit else s[:limit] + " ..."
 
